@@ -138,6 +138,17 @@ def check(ctx):
                        f"{fi.qual}: wait_for_response({arg}) is not inside `async with {arg}.Lock`: two requests can be outstanding at once and steal each other's replies",
                        loc(fi, n), sample={"rule": "R2", "site": f"{fi.qual} {loc(fi, n)}", "lock": f"{arg}.Lock", "inside": ok})
     ctx.floor("R2", "wait_for_response sites", nw, 2)
+    # the lock must span the whole request *including its retries*: the retry loop sits inside the
+    # `async with`, not the other way round (otherwise another caller's request - and a late reply
+    # to the timed-out attempt - can interleave between two attempts of one request)
+    for qual in (f"{PROTO}.get", "GeckoAsyncStructure.get"):
+        fi = repo.func(qual)
+        withs = [n for n in walk_no_nested(fi.node) if isinstance(n, ast.AsyncWith) and any(is_lock_expr(it.context_expr, n) for it in n.items)]
+        loops = [n for n in walk_no_nested(fi.node) if isinstance(n, ast.While) and "retry_count" in ast.unparse(n.test)]
+        ok = len(withs) == 1 and len(loops) == 1 and any(loops[0] is x for x in ast.walk(withs[0]))
+        ctx.ob("R2", f"{qual}::lock-spans-all-attempts", ok,
+               f"{qual}: the protocol lock does not enclose the whole retry loop (it is taken per attempt or not at all): between two attempts of one request other callers are served, "
+               f"so requests are neither atomic nor served in arrival order, and a late reply can be taken by another caller", fi.loc)
     lockp = repo.own_method(PROTO, "Lock")
     ret = [x for x in ast.walk(lockp.node) if isinstance(x, ast.Return)]
     lock_attr = ast.unparse(ret[0].value) if ret else ""
